@@ -45,7 +45,8 @@ def run_case(case):
     rng = random.Random(case["stim_seed"])
     n, dw = case["n"], case["dw"]
     mon = Mon()
-    srcs = [event.Source(trigger=t, path=(f"s{i}",)) for i, t in enumerate(case["triggers"])]
+    from vmon.simkit import omit
+    srcs = [event.Source(**omit(rng, "event.Source", trigger=t), path=(f"s{i}",)) for i, t in enumerate(case["triggers"])]
     emap = event.EventMap()
     for k_, s in enumerate(srcs):
         emap.add(s)
@@ -60,7 +61,7 @@ def run_case(case):
         return EventMonitor(em2, trigger=case["mon_trigger"], data_width=dw, alignment=case["al"])
 
     decoy(rng, twin)
-    dut = EventMonitor(emap, trigger=case["mon_trigger"], data_width=dw, alignment=case["al"])
+    dut = EventMonitor(emap, **omit(rng, "csr.EventMonitor", trigger=case["mon_trigger"], data_width=dw, alignment=case["al"]))
     from vmon.simkit import decoy_after
 
     def other_monitor():
